@@ -68,6 +68,13 @@ def bad_probabilities():
     # controls that must be accepted
     out.append({"tid": "ok-sum_eq_1", "text": tmpl % "x + 1 {1/4} x + 2 {3/4}", "goal": "x", "expect": "accept"})
     out.append({"tid": "ok-implicit", "text": tmpl % "x + 1 {1/4} x + 2 {1/4} x", "goal": "x", "expect": "accept"})
+    # decimal probabilities that sum to 1 exactly, although their binary floating point sum does not
+    for k, rhs in {"decimal_721": "x + 1 {0.7} x + 2 {0.2} x - 3 {0.1}", "decimal_811": "x + 1 {0.8} x + 2 {0.1} x - 3 {0.1}",
+                   "decimal_127": "x + 1 {0.1} x + 2 {0.2} x - 3 {0.7}", "decimal_six": "1 {0.1} 2 {0.2} 3 {0.3} 4 {0.15} 5 {0.15} 6 {0.1}",
+                   "decimal_implicit": "x + 1 {0.7} x + 2 {0.2} x - 3", "decimal_thirds": "x + 1 {0.3} x + 2 {0.3} x + 3 {0.3} x + 4 {0.1}"}.items():
+        out.append({"tid": "ok-" + k, "text": tmpl % rhs, "goal": "x", "expect": "accept"})
+    out.append({"tid": "prob-decimal_sum_gt_1", "text": tmpl % "x + 1 {0.7} x + 2 {0.2} x - 3 {0.11}", "goal": "x", "expect": "reject"})
+    out.append({"tid": "prob-decimal_sum_lt_1", "text": tmpl % "x + 1 {0.7} x + 2 {0.2} x - 3 {0.09}", "goal": "x", "expect": "reject"})
     out.append({"tid": "ok-zero", "text": tmpl % "x + 1 {0} x + 2", "goal": "x", "expect": "accept"})
     return out
 
